@@ -15,12 +15,15 @@ from .replay import Engine
 
 ALL_DERIVE = ["copy", "json_roundtrip", "copy_ctor", "relabel_copy", "subgraph", "enantiomer",
               "reverse", "reactant", "product", "compose_components"]
+# derivations applied to a DERIVED graph (a derived graph must be as usable as a freshly built one)
+SECOND = ["copy", "json_roundtrip", "enantiomer", "reverse", "reactant", "product"]
 ALGEBRA = ["subgraph", "compose", "compose_components", "copy_mod", "enantiomer", "reactant"]
 
 
-def P(kind, n, maxa, seeds, withq, derive, relabel, followup, gen_n=2, subsets="few", follow="focus"):
+def P(kind, n, maxa, seeds, withq, derive, relabel, followup, gen_n=2, subsets="few", follow="focus", second=()):
     return dict(Kind=kind, N=n, MaxA=maxa, SeedSet=seeds, WithQ=withq, DeriveSet=derive,
-                RelabelMode=relabel, FollowUp=followup, GenN=gen_n, SubsetMode=subsets, FollowMode=follow)
+                RelabelMode=relabel, FollowUp=followup, GenN=gen_n, SubsetMode=subsets, FollowMode=follow,
+                SecondSet=list(second))
 
 
 # name -> (quick profile, thorough profile)
@@ -33,13 +36,13 @@ PROFILES = {
     # derivations + one follow-up edit on either side (C10, C15, C08, C06)
     "D1": (P("MG", 3, 0, "gen", False, ALL_DERIVE, "few", True), P("MG", 3, 1, "gen", False, ALL_DERIVE, "few", True)),
     "D2": (P("CRG", 2, 0, "gen", False, ALL_DERIVE, "few", True), P("CRG", 3, 0, "gen", False, ALL_DERIVE, "few", True)),
-    "D3": (P("SMG", 4, 0, "stereo", False, ALL_DERIVE, "few", True), P("SMG", 4, 1, "stereo", False, ALL_DERIVE, "few", True)),
-    "D4": (P("SCRG", 4, 0, "stereo", False, ALL_DERIVE, "few", True), P("SCRG", 4, 1, "stereo", False, ALL_DERIVE, "few", True)),
+    "D3": (P("SMG", 4, 0, "stereo", False, ALL_DERIVE, "few", True, second=SECOND), P("SMG", 4, 1, "stereo", False, ALL_DERIVE, "few", True, second=SECOND)),
+    "D4": (P("SCRG", 4, 0, "stereo", False, ALL_DERIVE, "few", True, second=SECOND), P("SCRG", 4, 1, "stereo", False, ALL_DERIVE, "few", True, second=SECOND)),
     # relabelling with every injective partial map, then follow-up (C11)
-    "R1": (P("MG", 3, 0, "gen", True, ["relabel_copy"], "all", True), P("MG", 3, 1, "gen", True, ["relabel_copy"], "all", True)),
-    "R2": (P("CRG", 2, 0, "gen", True, ["relabel_copy"], "all", True), P("CRG", 3, 0, "gen", True, ["relabel_copy"], "all", True)),
-    "R3": (P("SMG", 4, 0, "stereo", True, ["relabel_copy"], "all", True), P("SMG", 4, 1, "stereo", True, ["relabel_copy"], "all", True)),
-    "R4": (P("SCRG", 4, 0, "stereo", True, ["relabel_copy"], "all", True), P("SCRG", 4, 1, "stereo", True, ["relabel_copy"], "all", True)),
+    "R1": (P("MG", 3, 0, "gen", True, ["relabel_copy"], "all", True, second=SECOND), P("MG", 3, 1, "gen", True, ["relabel_copy"], "all", True, second=SECOND)),
+    "R2": (P("CRG", 2, 0, "gen", True, ["relabel_copy"], "all", True, second=SECOND), P("CRG", 3, 0, "gen", True, ["relabel_copy"], "all", True, second=SECOND)),
+    "R3": (P("SMG", 4, 0, "stereo", True, ["relabel_copy"], "all", True, second=SECOND), P("SMG", 4, 1, "stereo", True, ["relabel_copy"], "all", True, second=SECOND)),
+    "R4": (P("SCRG", 4, 0, "stereo", True, ["relabel_copy"], "all", True, second=SECOND), P("SCRG", 4, 1, "stereo", True, ["relabel_copy"], "all", True, second=SECOND)),
     # enantiomer (C06), JSON (C15), reactant/product/reverse (C08) from every state within MaxA edits of the seeds
     "X3": (P("SMG", 4, 1, "stereo", False, ["enantiomer"], "none", True), P("SMG", 4, 2, "stereo", False, ["enantiomer"], "none", True)),
     "X4": (P("SCRG", 4, 1, "stereo", False, ["enantiomer"], "none", True), P("SCRG", 4, 2, "stereo", False, ["enantiomer"], "none", True)),
